@@ -22,7 +22,7 @@ def variant(cfg):
     just received: a real producer usually marks only the last segment), one empty segment, arguments left to their
     defaults, the representation of the name argument."""
     h = cfg['n'] * 7 + cfg['disc'] * 3 + cfg['retry'] + (cfg['fin'] + 1) * 5 + (1 if cfg.get('deep') else 0)
-    return {'mark': ('all', 'last', 'tail')[h % 3],                    # FinalBlockId on every Data / only on the final one / on the last two
+    return {'mark': cfg.get('mark') or ('all', 'last', 'tail')[h % 3],                    # FinalBlockId on every Data / only on the final one / on the last two
             # the segment n-1 (or the whole object) has empty content: an empty Content element / no Content element at all
             'empty': ((h // 3) % 4 == 1) and ('empty', 'absent')[(h // 12) % 2],
             'default_retry': cfg['retry'] == 3 and (h // 2) % 2 == 0,     # retry_times omitted (default 3)
@@ -437,6 +437,20 @@ def run(ctx):
             acts = [e['a'] for e in ev]
             if any(a in ('RespLost', 'RespNack', 'RespVFail') for a in acts) or cfg['disc'] > 0:
                 ctx.nt(['C', cfg, acts])
+        # beyond the small scope: objects of several hundred segments (segment numbers and FinalBlockId values that take two
+        # octets, marker on every Data / only on the last), a few losses on the way - seed C19-b1
+        for nseg, mark, disc in ctx.pick([(300, 'all', 5), (257, 'last', 0)],
+                                         [(300, 'all', 5), (257, 'last', 0), (256, 'all', 255), (600, 'tail', 0), (1100, 'all', 700)]):
+            rng = ctx.rng
+            cfg = {'n': nseg, 'seg': True, 'fin': nseg - 1, 'disc': disc, 'retry': 3, 'deep': False, 'mark': mark}
+
+            def chooser3(exists, rng=rng):
+                return 'RespLost' if (not exists or rng.random() < 0.01) else 'RespData'
+            ev, bg = record(cfg, chooser3, max_events=3 * nseg + 50)
+            if bg:
+                ctx.violation('C19/segment_fetcher/background-error', 'background error %s' % bg[0], {'cfg': cfg, 'ev': ev[-5:]})
+            recs.append({'cfg': cfg, 'ev': ev})
+            ctx.nt(['C-big', cfg])
         ctx.sample({'kind': 'C-trace', 'cfg': recs[0]['cfg'], 'events': [e['a'] for e in recs[0]['ev']][:20]})
         # two concurrent fetches of one object on one application: each must be a SegFetch behaviour on its own
         npairs = 0
